@@ -1234,7 +1234,36 @@ impl Gen {
                     self.next_id_hint = 3;
                 }
             }
-            Mode::BadInput => {}
+            Mode::BadInput => {
+                if self.rng.chance(1, 3) {
+                    self.script_overflowing_topup(names);
+                }
+            }
+        }
+    }
+
+    /// a record already holds more than half of what 128 bits can express of one denomination; the
+    /// owner's wallet is refilled from outside and the same amount is sent again: the sum cannot be
+    /// recorded, so the top-up must be refused (and must not be stored as a second entry)
+    fn script_overflowing_topup(&mut self, names: &Names) {
+        let m = &names.market;
+        let who = "user0";
+        let a: u128 = (1u128 << 127) + self.rng.below(1000) as u128;
+        let ask = AskSpec { native: vec![("uatom".into(), 5)], ..Default::default() };
+        self.count("topup_beyond_128_bits");
+        let as_listing = self.rng.chance(2, 3);
+        self.script.push_back(Op::Mint { to: who.into(), denom: "ubig".into(), amount: a });
+        if as_listing {
+            self.script.push_back(Op::tx(who, m, msgs::create_listing(700, &ask, None), vec![fund("ubig", a), fund("uatom", 9)]));
+        } else {
+            self.script.push_back(Op::tx(who, m, msgs::create_bucket(700), vec![fund("ubig", a), fund("uatom", 9)]));
+        }
+        self.script.push_back(Op::Mint { to: who.into(), denom: "ubig".into(), amount: a });
+        let again = vec![fund("uatom", 1), fund("ubig", a)];
+        if as_listing {
+            self.script.push_back(Op::tx(who, m, msgs::add_to_listing(700), again));
+        } else {
+            self.script.push_back(Op::tx(who, m, msgs::add_to_bucket(700), again));
         }
     }
 
